@@ -21,7 +21,7 @@ def archetype_methods(prog):
     return [f for f in prog.fns.values() if f.path.startswith('archetype::Archetype::<R>::') and f.kind == 'AssocFn']
 
 
-@rule('P4', props=['C01', 'C02', 'C13', 'C05'], floor=2)
+@rule('P4', props=['C01', 'C02', 'C13', 'C05', 'C03', 'C06'], floor=2)
 def p4_swap_remove_fixup(prog):
     """Wherever the archetype's identifier column is swap_removed at `index`, the entity that the swap moves into
     `index` gets its location index updated — exactly when there is one: for row counts L and indices i < L the
